@@ -51,6 +51,9 @@ CHECKS = {
  "C17": dict(tech="static analysis: written-field set vs. Reset assignments (reset completeness), epoch-test-before-state-read path rule, alias classification of sort arguments and window writes on SSA",
    text="History-independence and window-integrity clauses decided exactly: every field any method writes is assigned a history-independent value by Reset (scratch buffer exempt because it is fully overwritten before use, which is checked); in NtimedFilter.Do all reads of learned state are behind epoch==timebase.Epoch() or Reset(); the lucky-packet window is modified only by the one-slot shift when full and the append, sorting acts on the scratch copy only, selection is sort by delay, keep pick, sort by offset. The numeric selection rule and Ntimed arithmetic are not decided.",
    ref="DESIGN.md §4 C17"),
+ "C18": dict(tech="static analysis: interval abstract interpretation over SSA integer operations (TimevalFromNsec), paired-store rule, codec table for the 48-bit timestamp, linear-form / single-division recognisers for the CSPTP formulas, constant agreement for ppm scaling",
+   text="Finite/structural clauses decided exactly: Usec in [0,10^9) for every int64 input (sound intervals) with the -1/+10^9 fix-up paired on one edge over quotient/remainder by 10^9; 48-bit timestamp packing agrees both ways with range guards; ClockOffset/MeanPathDelay are a single division by two of the right integer combination, C2S/S2C delays their linear forms, correction fields >>16; one 65536e6 factor both ways; Drift = Duration(d.Seconds()*drift). The relational identity sec*1e9+usec==n and float rounding are not decided.",
+   ref="DESIGN.md §4 C18"),
 }
 NA = {
  "C04": "all clauses are value arithmetic over time.Time/uint32 (truncation direction, era unfolding, order preservation); no structural or finite-domain clause; matching the constants would be a frozen-fragment proxy",
